@@ -73,7 +73,8 @@ fn documented_panic(msg: &str) -> bool {
     msg.starts_with("Failed to get or intern string")
         || msg.starts_with("Failed to get or intern static string")
         || msg.starts_with("Key out of bounds")
-        || msg.starts_with("assertion failed: key.into_usize() < self.strings.len()")
+        // the bounds assertion of the checked `resolve` (whatever the vector field is called)
+        || (msg.starts_with("assertion failed: key.into_usize() < self.") && msg.trim_end().ends_with(".len()"))
         || msg.starts_with("failed to clone Rodeo")
 }
 
